@@ -34,6 +34,9 @@ type JSON struct {
 }
 
 func (t JSON) String() string {
+	if t.Omit {
+		return "-"
+	}
 	var tag string
 	if !t.Inline {
 		tag += t.Name
@@ -43,6 +46,11 @@ func (t JSON) String() string {
 	}
 	if t.Inline {
 		tag += ",inline"
+	}
+	if tag == "-" {
+		// A field really named "-" is spelled "-," (as in encoding/json);
+		// a bare "-" means "omit this field".
+		tag = "-,"
 	}
 	return tag
 }
